@@ -273,9 +273,10 @@ package rapid
 //@ func generatorImpl.value
 //@   params impl, t
 //@   assumes "generator implementations signal a failure only by panicking, never by recording it on the enclosing *T"
+//@   assumes "generator implementations do not call Draw with the enclosing *T (user code inside Custom runs on an inner T)"
 //@   ensures t.failed == old(t.failed)
-//@   ensures drawn >= old(drawn) && relyUser(t)
-//@   panics any: drawn >= old(drawn) && relyUser(t)
+//@   ensures drawn >= old(drawn) && relyUser(t) && t.draws == old(t.draws)
+//@   panics any: drawn >= old(drawn) && relyUser(t) && t.draws == old(t.draws)
 //@   modifies drawn, t.failed, t.cleanups, elems(t.cleanups), t.ctx, t.cancelCtx, t.draws, stream(t.s)
 
 //@ func generatorImpl.String
@@ -294,8 +295,8 @@ package rapid
 //@   assumes "generator implementations signal a failure only by panicking, never by recording it on the enclosing *T"
 //@   ensures t.failed == old(t.failed)
 //@   ensures [C03] drawn > old(drawn)
-//@   ensures relyUser(t)
-//@   panics any: drawn >= old(drawn) && relyUser(t)
+//@   ensures relyUser(t) && t.draws == old(t.draws)
+//@   panics any: drawn >= old(drawn) && relyUser(t) && t.draws == old(t.draws)
 //@   modifies drawn, t.failed, t.cleanups, elems(t.cleanups), t.ctx, t.cancelCtx, t.draws, stream(t.s), onceDone, onceIn
 
 // ---------------------------------------------------------------------------------------------
@@ -315,7 +316,7 @@ package rapid
 //@   panics any: true
 //@   modifies drawn, t.failed, t.cleanups, elems(t.cleanups), t.ctx, t.cancelCtx, t.draws, g.elem.str, g.elem.strOnce, lastWord, onceDone, onceIn
 //@   loop 0 invariant [C01,C03,C04] len(sl) == repeat.count && repeatInv(repeat) && groupUsed(repeat)
-//@   loop 0 invariant [C03] repeat.minCount == minOf(g.minLen) && repeat.maxCount == maxOf(g.maxLen)
+//@   loop 0 invariant [C01,C03,C04] repeat.minCount == minOf(g.minLen) && repeat.maxCount == maxOf(g.maxLen)
 
 //@ func (*mapGen).value
 //@   immutable g
@@ -328,7 +329,7 @@ package rapid
 //@   panics any: true
 //@   modifies drawn, t.failed, t.cleanups, elems(t.cleanups), t.ctx, t.cancelCtx, t.draws, g.val.str, g.val.strOnce, g.key.str, g.key.strOnce, lastWord, onceDone, onceIn
 //@   loop 0 invariant [C01,C03,C04] len(m) == repeat.count && repeatInv(repeat) && groupUsed(repeat)
-//@   loop 0 invariant [C03] repeat.minCount == minOf(g.minLen) && repeat.maxCount == maxOf(g.maxLen)
+//@   loop 0 invariant [C01,C03,C04] repeat.minCount == minOf(g.minLen) && repeat.maxCount == maxOf(g.maxLen)
 
 // ---------------------------------------------------------------------------------------------
 // combinators.go
@@ -417,7 +418,7 @@ package rapid
 //@   panics any: true
 //@   modifies drawn, runesWritten, t.failed, t.cleanups, elems(t.cleanups), t.ctx, t.cancelCtx, t.draws, g.elem.str, g.elem.strOnce, lastWord, onceDone, onceIn
 //@   loop 0 invariant [C03] repeatInv(repeat) && groupUsed(repeat) && len(b.buf) <= maxLen
-//@   loop 0 invariant [C03] repeat.minCount == minOf(g.minRunes) && repeat.maxCount == maxOf(g.maxRunes) && maxLen == maxOf(g.maxLen)
+//@   loop 0 invariant [C01,C03,C04] repeat.minCount == minOf(g.minRunes) && repeat.maxCount == maxOf(g.maxRunes) && maxLen == maxOf(g.maxLen)
 //@   loop 0 invariant [C01,C03,C04] runesWritten - old(runesWritten) == repeat.count
 
 // ---------------------------------------------------------------------------------------------
@@ -438,16 +439,16 @@ package rapid
 //@   modifies rec.data, rec.dataLen, elems(rec.data)
 
 //@ func (*bufBitStream).drawBits
-//@   requires [C04,C13] arr(s.buf) != arr(s.data)
-//@   ensures [C04,C13] arr(s.buf) != arr(s.data)
-//@   requires [C03,C04,C13] n >= 0
+//@   requires [C04,C13,C17] arr(s.buf) != arr(s.data)
+//@   ensures [C04,C13,C17] arr(s.buf) != arr(s.data)
+//@   requires [C03,C04,C13,C17] n >= 0
 //@   requires [C04] 0 <= s.dataLen && s.dataLen < math.MaxInt
-//@   ensures [C04,C13] result == old(s.buf[0]) & mask(n)
-//@   ensures [C04,C13] len(s.buf) == old(len(s.buf)) - 1
-//@   ensures [C04,C13] forall(k, 0, len(s.buf), s.buf[k] == old(s.buf[k+1]))
+//@   ensures [C04,C13,C17] result == old(s.buf[0]) & mask(n)
+//@   ensures [C04,C13,C17] len(s.buf) == old(len(s.buf)) - 1
+//@   ensures [C04,C13,C17] forall(k, 0, len(s.buf), s.buf[k] == old(s.buf[k+1]))
 //@   ensures [C04] pos(s) == old(pos(s)) + 1 && s.persist == old(s.persist)
 //@   ensures [C04] implies(s.persist, s.data[old(len(s.data))] == result)
-//@   panics invalidData [C03,C13]: old(len(s.buf)) == 0 && len(s.buf) == 0 && pos(s) == old(pos(s))
+//@   panics invalidData [C03,C13,C17]: old(len(s.buf)) == 0 && len(s.buf) == 0 && pos(s) == old(pos(s))
 //@   modifies s.buf, s.data, s.dataLen, elems(s.data)
 
 //@ func (*randomBitStream).drawBits
@@ -496,17 +497,17 @@ package rapid
 
 //@ func (*T).fail
 //@   requires [C14] unlocked(t)
-//@   ensures [C02,C13,C14] t.failed != ""
-//@   ensures [C02,C13] !now && implies(msg != "", t.failed == stopTest(msg))
+//@   ensures [C02,C08,C11,C13,C14] t.failed != ""
+//@   ensures [C02,C08,C11,C13] !now && implies(msg != "", t.failed == stopTest(msg))
 //@   ensures [C14] unlocked(t)
-//@   panics stopTest [C02,C13,C14]: now && t.failed != "" && strOf(panicval) == t.failed && unlocked(t)
+//@   panics stopTest [C02,C08,C11,C13,C14]: now && t.failed != "" && strOf(panicval) == t.failed && unlocked(t)
 //@   modifies t.failed, lockmode[addr(t.mu)]
 
 //@ func (*T).failOnError
 //@   requires [C14] unlocked(t)
-//@   ensures [C02,C13] t.failed == ""
+//@   ensures [C02,C08,C11,C13] t.failed == ""
 //@   ensures [C14] unlocked(t)
-//@   panics stopTest [C02,C13,C14]: t.failed != "" && strOf(panicval) == t.failed && unlocked(t)
+//@   panics stopTest [C02,C08,C11,C13,C14]: t.failed != "" && strOf(panicval) == t.failed && unlocked(t)
 //@   modifies lockmode[addr(t.mu)]
 
 //@ func (*T).skip
@@ -569,10 +570,10 @@ package rapid
 
 //@ func (*T).Context
 //@   requires [C14] unlocked(t) && ctxInv(t)
-//@   ensures [C10,C14] result != nil && unlocked(t) && ctxInv(t)
-//@   ensures [C10,C14] implies(old(t.ctx) != nil, result == old(t.ctx) && t.ctx == old(t.ctx) && t.cancelCtx == old(t.cancelCtx))
-//@   ensures [C10,C14] result == t.ctx || cancelled[result]
-//@   ensures [C10,C14] implies(t.ctx != nil, !cancelled[t.ctx])
+//@   ensures [C10,C11,C14] result != nil && unlocked(t) && ctxInv(t)
+//@   ensures [C10,C11,C14] implies(old(t.ctx) != nil, result == old(t.ctx) && t.ctx == old(t.ctx) && t.cancelCtx == old(t.cancelCtx))
+//@   ensures [C10,C11,C14] result == t.ctx || cancelled[result]
+//@   ensures [C10,C11,C14] implies(t.ctx != nil, !cancelled[t.ctx])
 //@   modifies t.ctx, t.cancelCtx, lockmode[addr(t.mu)], cancelled
 
 // A cleanup callback runs while its T is in the cleanup phase: the context has already been cancelled and cleared,
@@ -619,6 +620,9 @@ package rapid
 
 //@ func checkOnce
 //@   noframe "runs the property function"
+//   The failure site starts at the frame that panicked: panicToError skips exactly its own frame, the recovering
+//   literal and runtime.Callers (3) - skipping more would drop the panicking function's own line (C05).
+//@   at panicToError#0 assert [C05] arg1 == 3
 //@   at prop#0 set propFalsified = false
 //@   at prop#0 onpanic propFalsified = !isInvalidData(panicval)
 //@   at prop#0 set cleanupSkipped = false
@@ -674,7 +678,11 @@ package rapid
 //@   assumes "generator implementations signal a failure only by panicking, never by recording it on the enclosing *T"
 //@   ensures t.failed == old(t.failed)
 //@   ensures drawn >= old(drawn) && relyUser(t)
-//@   panics any: drawn >= old(drawn) && relyUser(t)
+//   The draw counter counts every completed Draw and nothing else, whatever the logging mode: runAction tells
+//   "skipped before drawing" from "drew, then skipped" by it, so a replay with logging on (final replay, fuzzing,
+//   -rapid.v) must count exactly like the run that found the failure.
+//@   ensures [C01,C04,C08,C13] t.draws == old(t.draws) + 1
+//@   panics any [C01,C04,C08,C13]: drawn >= old(drawn) && relyUser(t) && t.draws == old(t.draws)
 //@   modifies drawn, t.failed, t.cleanups, elems(t.cleanups), t.ctx, t.cancelCtx, t.draws, stream(t.s), onceDone, onceIn
 
 //@ func (*stateMachine).executeAction
@@ -727,6 +735,8 @@ package rapid
 //@ ghost lastInit (_ BitVec 64)
 //@ ghost searched Bool
 //@ ghost sawFailure Bool
+// untilG: what time.Until(deadline) returned in the current iteration of findBug
+//@ ghost untilG (_ BitVec 64)
 
 //@ func findBug
 //@   noframe "runs the property"
@@ -739,8 +749,13 @@ package rapid
 //@   ensures [C01,C02,C11] implies(result4 != nil, !isInvalidData(result4.data) && fresh(result4))
 //@   ensures [C07] implies(result4 != nil, result3 == lastInit) && implies(result4 == nil, result3 == 0)
 //@   ensures [C09] implies(result2, result4 == nil)
+//   Early exit (C09 allows passing with fewer than N cases only near the deadline): taken only when the time left is
+//   below five times the average case duration so far - as computed here, in Duration arithmetic without wrap-around
+//   of a product of the time left with the case count.
+//@   ensures [C09] implies(result2, now(iter) > 0 && int64(untilG) < int64(now(total)) / int64(now(iter)) * 5)
+//@   at time.Until#0 set untilG = result
 //@   ensures [C01,C02] sawFailure == (result4 != nil)
-//@   modifies heap, drawn, runs, lastInit, sawFailure, lockmode, cancelled, cleanupSkipped, propFalsified
+//@   modifies heap, drawn, runs, lastInit, sawFailure, lockmode, cancelled, cleanupSkipped, propFalsified, untilG
 //@   at r.init#0 assert [C07] implies(valid + invalid == 0, arg0 == old(seed))
 //@   at r.init#0 set lastInit = arg0
 //@   at checkOnce#0 set runs = runs + 1
@@ -840,8 +855,9 @@ package rapid
 //@   ensures [C07] implies(searched && (result6 != nil || result7 != nil), result3 == lastInit)
 //@   ensures [C09] implies(result6 == nil && result7 == nil, searched && result3 == 0 && result4 == "")
 //@   ensures [C02,C17] tbFailed == old(tbFailed) && tbErrors == old(tbErrors)
-//@   modifies heap, drawn, runs, lastInit, searched, sawFailure, lockmode, cancelled, ffFalsified, cleanupSkipped, propFalsified, runesWritten, ioFailed, fsClosed, cmpAt, lessAt
+//@   modifies heap, drawn, runs, lastInit, searched, sawFailure, lockmode, cancelled, ffFalsified, cleanupSkipped, propFalsified, runesWritten, ioFailed, fsClosed, cmpAt, lessAt, untilG
 //@   at findBug#0 assert [C17] seed == old(seed) && checks == old(checks) && !tbFailed
+//@   at failFilePattern#0 assert [C06] arg0 == tbNameOf(tb)
 //@   at checkFailFile#0 set ffFalsified = result1 != nil
 //@   at findBug#0 assert [C02,C09] !ffFalsified
 //@   at findBug#0 set searched = true
@@ -874,9 +890,14 @@ package rapid
 //@   ensures [C09] tbErrors == old(tbErrors)
 //@   panics goexit [C02,C06,C09,C16]: tbFailed && tbErrors == old(tbErrors) + 1 && fsRenames <= old(fsRenames) + 1
 //@   ensures [C06,C16] fsRenames <= old(fsRenames) + 1
-//@   modifies heap, drawn, runs, lastInit, searched, sawFailure, lockmode, cancelled, tbFailed, tbErrors, fsWritten, fsClosed, fsRenamed, fsTmpName, fsTmpDir, fsRenamedAtCreate, fsRenames, runesWritten, capturedOut, cleanupSkipped, ffFalsified, propFalsified, ioFailed, cmpAt, lessAt
+//@   modifies heap, drawn, runs, lastInit, searched, sawFailure, lockmode, cancelled, tbFailed, tbErrors, fsWritten, fsClosed, fsRenamed, fsTmpName, fsTmpDir, fsRenamedAtCreate, fsRenames, runesWritten, capturedOut, cleanupSkipped, ffFalsified, propFalsified, ioFailed, cmpAt, lessAt, untilG
 //@   at captureTestOutput#0 set capturedOut = arr(result)
 //@   at saveFailFile#0 assert [C06,C16] fsRenames == old(fsRenames) && arr(arg2) == capturedOut
+//   The fail file is saved under the directory and name derived from the very test name that doCheck globs for.
+//@   at failFileName#0 assert [C06] arg0 == tbNameOf(tb)
+//   The seed printed in the reproduction hint is the seed doCheck returned (C07), wherever the hint mentions one.
+//@   at fmt.Sprintf#0 assert [C07] bvOf(arg1[1]) == seed
+//@   at fmt.Sprintf#2 assert [C07] bvOf(arg1[0]) == seed
 //@   at saveFailFile#0 assert [C06] arg3 == seed && arr(arg4) == arr(buf) && len(arg4) == len(buf) && arg1 == rapidVersion
 //@   at newBufBitStream#0 assert [C01,C06] arr(arg0) == arr(buf) && len(arg0) == len(buf) && !arg1
 //@   at captureTestOutput#0 assert [C06] arr(arg2) == arr(buf) && len(arg2) == len(buf)
@@ -1340,3 +1361,84 @@ package rapid
 //@   ensures [C01,C05] shrInv(s) && flags.debugvis == old(flags.debugvis)
 //@   panics testError [C01,C05]: flags.debugvis == old(flags.debugvis)
 //@   modifies heap, drawn, lockmode, cancelled, cmpAt, lessAt, propFalsified, cleanupSkipped
+
+// ---------------------------------------------------------------------------------------------
+// Time budget of minimisation (C12 "given enough time", C05): the shrink deadline is now + the configured shrink time,
+// capped only by the test deadline minus one step bound (time itself is unconstrained in the model, so what is
+// checked is which durations enter).
+//@ func shrinkDeadline
+//@   at (time.Time).Add#0 assert [C05,C12] arg0 == flags.shrinkTime
+//@   at (time.Time).Add#1 assert [C05,C12] arg0 == -shrinkStepBound
+
+// ---------------------------------------------------------------------------------------------
+// Reachability of float values (C18): for every range [min, max] of non-negative float64s and every bit pattern tb
+// between the patterns of min and max there is a choice of the four generator results inside genUfloatRange -
+// exponent, integer part, "how many low bits to keep" and fractional part - that makes it return exactly the parts of
+// tb. Each choice must be admissible for the callee that makes it (inside the range it was called with): this is what
+// pins the bound tables of the two switch statements from the reachability side (C03 pins them from the safety side).
+// That each callee can reach every admissible result is genUintNBiased@reachall etc. (no hole here: spans <= 2^52).
+//@ define partE(tb) = int32(tb >> 52) - 1023
+//@ define partS(tb) = tb & 0xfffffffffffff
+//@ define partSI(tb) = partS(tb) >> fracbits(partE(tb), uint64(52))
+//@ define partSF(tb) = partS(tb) & mask(fracbits(partE(tb), uint64(52)))
+
+//@ func genUfloatRange@reach
+//@   given tb (_ BitVec 64)
+//@   requires [C18] min >= 0 && min <= max && signifBits == 52
+//@   requires [C18] ub64(min) <= tb && tb <= ub64(max)
+//@   ensures [C18] result0 == partE(tb) && result1 == partSI(tb) && result2 == partSF(tb)
+//@   panics invalidData: true
+//@   modifies drawn, lastWord
+//@   at genIntRange#0 witness [C18] tuple(int64(partE(tb)), false, false)
+//@   at genUintRange#0 witness [C18] tuple(partSI(tb), false, false)
+//@   at genUintNNoReject#0 witness [C18] uint64(maxR)
+//@   at genUintRange#1 witness [C18] tuple(partSF(tb), false, false)
+//@   loop 0 invariant [C18] sf == partSF(tb) && r == uint64(maxR) && i == 0
+
+//@ define partE32(tb) = int32(tb >> 23) - 127
+//@ define partS32(tb) = tb & 0x7fffff
+//@ define partSI32(tb) = partS32(tb) >> fracbits(partE32(tb), uint64(23))
+//@ define partSF32(tb) = partS32(tb) & mask(fracbits(partE32(tb), uint64(23)))
+
+//@ func genUfloatRange@reach32
+//@   given tb (_ BitVec 64)
+//@   requires [C18] min >= 0 && min <= max && signifBits == 23 && exact32(min) && exact32(max)
+//@   requires [C18] uint64(ub32(float32(min))) <= tb && tb <= uint64(ub32(float32(max)))
+//@   ensures [C18] result0 == partE32(tb) && result1 == partSI32(tb) && result2 == partSF32(tb)
+//@   panics invalidData: true
+//@   modifies drawn, lastWord
+//@   at genIntRange#0 witness [C18] tuple(int64(partE32(tb)), false, false)
+//@   at genUintRange#0 witness [C18] tuple(partSI32(tb), false, false)
+//@   at genUintNNoReject#0 witness [C18] uint64(maxR)
+//@   at genUintRange#1 witness [C18] tuple(partSF32(tb), false, false)
+//@   loop 0 invariant [C18] sf == partSF32(tb) && r == uint64(maxR) && i == 0
+
+// ---------------------------------------------------------------------------------------------
+// Reachability carried up from genUintNBiased to the range generators (C18): every value of an integer range can be
+// produced, whatever the sign split and the offset arithmetic do (values inside the known hole F8 excepted).
+//@ func genUintN@reach
+//@   given v (_ BitVec 64)
+//@   requires [C18] bias && v <= max && !inHole(v, max)
+//@   ensures [C18] result0 == v
+//@   panics invalidData: true
+//@   modifies drawn, lastWord
+//@   at genUintNBiased#0 witness [C18] tuple(v, false, false)
+
+//@ func genUintRange@reach
+//@   given v (_ BitVec 64)
+//@   requires [C18] bias && min <= v && v <= max && !inHole(v - min, max - min)
+//@   ensures [C18] result0 == v
+//@   panics any: true
+//@   modifies drawn, lastWord
+//@   at genUintN#0 witness [C18] tuple(v - min, false, false)
+
+//@ func genIntRange@reach
+//@   given v (_ BitVec 64)
+//@   requires [C18] bias && min <= int64(v) && int64(v) <= max
+//   (composition with genUintRange@reach / genUintN@reach / genUintNBiased@reachall inherits the hole of F8)
+//@   ensures [C18] result0 == int64(v)
+//@   panics any: true
+//@   modifies drawn, lastWord
+//@   at flipBiasedCoin#0 witness [C18] int64(v) < 0 || (max <= 0 && min < 0)
+//@   at genUintRange#0 witness [C18] tuple(uint64(-int64(v)), false, false)
+//@   at genUintRange#1 witness [C18] tuple(v, false, false)
